@@ -135,33 +135,57 @@ package fiber
 // ---------------------------------------------------------------------------------------------
 
 // Subdomains: parts of Host() (strings.Split shares the storage of its argument).
+// [C10] Subdomains is a function of Host() and the offset alone: the first n dot-separated pieces of Host(), n = number of
+// pieces minus the offset (all pieces when the offset exceeds their number); so for an untrusted peer it is computed from
+// the Host header of the request.
 //@ func (*DefaultCtx).Subdomains
-//@   props C06 C07
+//@   props C06 C07 C10
+//@   pure
 //@   requires wf-immutable: wfImmutable(c)
 //@   requires [C07] offset-in-domain: len(offset) > 0 ==> offset[0] >= 0
 //@   ensures [C06] immutable-stable: old(c.app.config.Immutable) ==> forall(k, 0, len(result), stable(result[k]))
+//@   ensures [C10] pieces-of-host: subdomainsOf(result, host(c, epoch), ite(len(offset) > 0, offset[0], 2))
+//@   ensures [C10] untrusted-pieces-of-uri-host: !trusted(c, epoch) ==> subdomainsOf(result, uriHost(reqURI(c.fasthttp.Request, epoch), epoch), ite(len(offset) > 0, offset[0], 2))
 
 // IPs / extractIPsFromHeader: trimmed pieces of the X-Forwarded-For value.
+// [C10] IPs() is NOT gated by IsProxyTrusted: by its documentation it is "the IP addresses specified in the
+// X-Forwarded-For request header", whoever the peer is. What is stated: every element is a comma-free piece of that
+// header's value (pieceOf), and with IP validation every element is a syntactically valid address. None of the
+// accessors the property lists (IP, Host, Hostname, Scheme, BaseURL, Secure, Subdomains, Port) reads IPs().
+// Frame: the function only fills the list it allocates. (ENGINE LIMITATION: `pure` cannot be shown - the list is allocated
+// before the loop that appends to it, and the loop-head havoc of the element heap loses "everything else is unchanged";
+// the frame is therefore stated as the element heap of []string.)
 //@ func (*DefaultCtx).extractIPsFromHeader
-//@   props C06 C07
+//@   props C06 C07 C10
+//@   modifies heap(E_string)
 //@   requires wf-immutable: wfImmutable(c)
 //@   allocbound [C07] estimated-count-capped: 8
 //@   loop 1
 //@     invariant j-ge-minus-one: j >= -1
 //@     invariant [C06] found-stable: old(c.app.config.Immutable) ==> forall(k, 0, len(ipsFound), stable(ipsFound[k]))
+//@     invariant [C10] found-valid: old(c.app.config.EnableIPValidation) ==> forall(k, 0, len(ipsFound), isIPv4(ipsFound[k]) || isIPv6(ipsFound[k]))
+//@     invariant [C10] found-pieces-of-the-header: forall(k, 0, len(ipsFound), pieceOf(ipsFound[k], headerValue))
+//@     invariant [C10] header-value-read-once: headerValue == reqHeader(c, header, epoch)
 //@     decreases len(headerValue) + 1 - j
 //@   loop 2
 //@     invariant j-in-range: 1 <= j && j <= len(headerValue)
+//@     invariant [C10] no-comma-scanned: i + 1 <= j && forall(m, i + 1, j, headerValue[m] != ',')
 //@     decreases len(headerValue) - j
 //@   loop 3
 //@     invariant i-le-j: 0 <= i && i <= j
+//@     invariant [C10] no-comma-behind-i: forall(m, i + 1, j, headerValue[m] != ',')
 //@     decreases j - i
 //@   ensures [C06] immutable-stable: old(c.app.config.Immutable) ==> forall(k, 0, len(result), stable(result[k]))
+//@   ensures [C10] valid-ips: old(c.app.config.EnableIPValidation) ==> forall(k, 0, len(result), isIPv4(result[k]) || isIPv6(result[k]))
+//@   ensures [C10] pieces-of-the-header: forall(k, 0, len(result), pieceOf(result[k], reqHeader(c, header, epoch)))
 
 //@ func (*DefaultCtx).IPs
-//@   props C06 C07
+//@   props C06 C07 C10
+//@   modifies heap(E_string)
 //@   requires wf-immutable: wfImmutable(c)
 //@   ensures [C06] immutable-stable: old(c.app.config.Immutable) ==> forall(k, 0, len(result), stable(result[k]))
+//@   ensures [C10] valid-ips: old(c.app.config.EnableIPValidation) ==> forall(k, 0, len(result), isIPv4(result[k]) || isIPv6(result[k]))
+//@   ensures [C10] pieces-of-x-forwarded-for-whoever-the-peer: forall(k, 0, len(result), pieceOf(result[k], reqHeader(c, HeaderXForwardedFor, epoch)))
 
 // ---------------------------------------------------------------------------------------------
 // Scheme / Host / Hostname / IP / extractIPFromHeader / Get have their contracts in zz_contracts_verif.go (C10 block);
@@ -176,9 +200,17 @@ package fiber
 
 // The header visitor of Scheme(): whatever it assigns to the captured result variable is a constant or went
 // through app.getString.
+// [C10] what one visited header does to the result (trusted peer, no TLS): X-Forwarded-Proto / X-Forwarded-Protocol
+// give the part of the value before the first comma, X-Forwarded-Ssl: on gives "https", X-Url-Scheme gives its value,
+// every other header (and X-Forwarded-Ssl with another value) leaves the result alone. Each relevant header overrides
+// what earlier ones gave: the LAST relevant header in fasthttp's VisitAll order wins (VisitAll: assumed `callsback`).
 //@ func (*DefaultCtx).Scheme$1
-//@   props C06
-//@   preserves scheme-stable: c.app.config.Immutable && copies(c.app.getString) ==> stable(scheme)
+//@   props C06 C10
+//@   preserves [C06] scheme-stable: c.app.config.Immutable && copies(c.app.getString) ==> stable(scheme)
+//@   ensures [C10] proto-header-first-item: str(key) == HeaderXForwardedProto || str(key) == HeaderXForwardedProtocol ==> firstListItem(scheme, str(val))
+//@   ensures [C10] ssl-header-on: str(key) == HeaderXForwardedSsl ==> scheme == ite(str(val) == "on", "https", old(scheme))
+//@   ensures [C10] url-scheme-header: str(key) == HeaderXUrlScheme ==> scheme == str(val)
+//@   ensures [C10] other-headers-ignored: str(key) != HeaderXForwardedProto && str(key) != HeaderXForwardedProtocol && str(key) != HeaderXForwardedSsl && str(key) != HeaderXUrlScheme ==> scheme == old(scheme)
 
 // ---------------------------------------------------------------------------------------------
 // Body
@@ -274,25 +306,37 @@ package fiber
 // string(b) / []byte(s) copy (Go semantics; getBytesImmutable's new array is proved above).
 //@ axiom copying-variants: copies(getStringImmutable) && copies(getBytesImmutable)
 
+// (C10 clauses of New / init: the proxy set built from Config.TrustProxyConfig.Proxies - macros in zz_contracts_c10_verif.go)
 //@ func New
-//@   props C06
+//@   props C06 C10
 //@   loop 1
-//@     invariant conversions-installed: app.config.Immutable ==> copies(app.getString) && copies(app.getBytes)
-//@   ensures immutable-installs-copying-conversions: result.config.Immutable ==> copies(result.getString) && copies(result.getBytes)
+//@     invariant [C06] conversions-installed: app.config.Immutable ==> copies(app.getString) && copies(app.getBytes)
+//@     invariant [C10] entry-index: rangeindex + 1 <= len(app.config.TrustProxyConfig.Proxies)
+//@     invariant [C10] ips-exactly-listed-addresses: ipsExact(app.config.TrustProxyConfig, rangeindex + 1)
+//@     invariant [C10] ranges-only-listed-cidrs: rangesOnlyListed(app.config.TrustProxyConfig, rangeindex + 1)
+//@     invariant [C10] ranges-all-listed-cidrs: rangesAllListed(app.config.TrustProxyConfig, rangeindex + 1)
+//@   ensures [C06] immutable-installs-copying-conversions: result.config.Immutable ==> copies(result.getString) && copies(result.getBytes)
+//@   ensures [C10] ips-exactly-listed-addresses: ipsExact(result.config.TrustProxyConfig, len(result.config.TrustProxyConfig.Proxies))
+//@   ensures [C10] ranges-only-listed-cidrs: rangesOnlyListed(result.config.TrustProxyConfig, len(result.config.TrustProxyConfig.Proxies))
+//@   ensures [C10] ranges-all-listed-cidrs: rangesAllListed(result.config.TrustProxyConfig, len(result.config.TrustProxyConfig.Proxies))
+// NOT STATED (engine: the whole-struct copy `app.config = config[0]` goes to an opaque heap and is not linked to the field
+// heaps - see the report): that result.config.{TrustProxy, ProxyHeader, EnableIPValidation, TrustProxyConfig.*} are the
+// caller's values. The clauses above hold for whatever list the field Proxies holds when the loop starts.
 
 // the last two steps of New() do not touch the conversions or the Immutable flag
 //@ func defaultColors
 //@   props C06
 //@   pure
 //@ func (*App).init
-//@   props C06 C07
+//@   props C06 C07 C10
 //@   requires mutex-free: !held(app.mutex)
-//@   modifies heap
+//@   modifies app.server
 //@   ensures [C06] keeps-conversions: app.getString == old(app.getString) && app.getBytes == old(app.getBytes) && app.config.Immutable == old(app.config.Immutable) && result == app
 //@   ensures [C07] limits-reach-the-server: app.server != nil && app.server.MaxRequestBodySize == app.config.BodyLimit && app.server.ReadBufferSize == app.config.ReadBufferSize &&
 //@ ..    app.server.ReadTimeout == app.config.ReadTimeout && app.server.IdleTimeout == app.config.IdleTimeout && app.server.Concurrency == app.config.Concurrency &&
 //@ ..    app.server.StreamRequestBody == app.config.StreamRequestBody && app.server.GetOnly == app.config.GETOnly
 //@   ensures [C07] unlocked-again: !held(app.mutex)
+//@   ensures [C10] keeps-proxy-configuration: proxyConfigKept(app)
 // Views.Load (template engine, user supplied): assumed not to write fiber's App / Config objects.
 //@ func Views.Load(recv) assumed pure
 
@@ -309,9 +353,10 @@ package fiber
 //@   requires wf-immutable: wfImmutableReq(r)
 //@   ensures immutable-stable: old(r.ctx.app.config.Immutable) ==> stable(result)
 //@ func (*DefaultReq).Host
-//@   props C06
+//@   props C06 C10
 //@   requires wf-immutable: wfImmutableReq(r)
-//@   ensures immutable-stable: old(r.ctx.app.config.Immutable) ==> stable(result)
+//@   ensures [C06] immutable-stable: old(r.ctx.app.config.Immutable) ==> stable(result)
+//@   ensures [C10] untrusted-uri-host: !trusted(r.ctx, epoch) ==> result == uriHost(reqURI(r.ctx.fasthttp.Request, epoch), epoch)
 //@ func (*DefaultReq).Cookies
 //@   props C06
 //@   requires wf-immutable: wfImmutableReq(r)
@@ -334,14 +379,17 @@ package fiber
 //@   requires path-original-wf: r.ctx.app.config.Immutable ==> stable(r.ctx.pathOriginal)
 //@   ensures immutable-stable: old(r.ctx.app.config.Immutable) ==> stable(result) || orDefault(result, defaultValue)
 //@ func (*DefaultReq).IPs
-//@   props C06
+//@   props C06 C10
 //@   requires wf-immutable: wfImmutableReq(r)
-//@   ensures immutable-stable: old(r.ctx.app.config.Immutable) ==> forall(k, 0, len(result), stable(result[k]))
+//@   ensures [C06] immutable-stable: old(r.ctx.app.config.Immutable) ==> forall(k, 0, len(result), stable(result[k]))
+//@   ensures [C10] valid-ips: old(r.ctx.app.config.EnableIPValidation) ==> forall(k, 0, len(result), isIPv4(result[k]) || isIPv6(result[k]))
+//@   ensures [C10] pieces-of-x-forwarded-for-whoever-the-peer: forall(k, 0, len(result), pieceOf(result[k], reqHeader(r.ctx, HeaderXForwardedFor, epoch)))
 //@ func (*DefaultReq).Subdomains
-//@   props C06
+//@   props C06 C10
 //@   requires wf-immutable: wfImmutableReq(r)
 //@   requires offset-in-domain: len(offset) > 0 ==> offset[0] >= 0
-//@   ensures immutable-stable: old(r.ctx.app.config.Immutable) ==> forall(k, 0, len(result), stable(result[k]))
+//@   ensures [C06] immutable-stable: old(r.ctx.app.config.Immutable) ==> forall(k, 0, len(result), stable(result[k]))
+//@   ensures [C10] untrusted-pieces-of-uri-host: !trusted(r.ctx, epoch) ==> subdomainsOf(result, uriHost(reqURI(r.ctx.fasthttp.Request, epoch), epoch), ite(len(offset) > 0, offset[0], 2))
 //@ func (*DefaultReq).Queries
 //@   props C06
 //@   requires wf-immutable: wfImmutableReq(r)
